@@ -43,7 +43,8 @@ impl Subset for Gvar<'_> {
                 self.data_for_gid(x.1)
                     .ok()
                     .flatten()
-                    .map(|data| data.len() as u32)
+                    // short offsets address even positions only: count the padding of odd-length data
+                    .map(|data| (data.len() + data.len() % 2) as u32)
             })
             .sum();
 
@@ -139,6 +140,11 @@ fn subset_with_offset_type<OffsetType: GvarOffset>(
             s.embed_bytes(glyph_var_data.as_bytes())
                 .map_err(|_| SubsetError::SubsetTableError(Gvar::TAG))?;
             glyph_offset += glyph_var_data.len() as u32;
+            if off_size == 2 && glyph_offset % 2 != 0 {
+                s.pad(1)
+                    .map_err(|_| SubsetError::SubsetTableError(Gvar::TAG))?;
+                glyph_offset += 1;
+            }
         };
 
         s.copy_assign(start_idx, OffsetType::stored_value(glyph_offset));
